@@ -579,8 +579,11 @@ public:
 				return erase(first);
 			typename HashMultiMap::ConstKeyIterator keyIter =
 				ConstIteratorProxy::GetBaseIterator(first).GetKeyIterator();
-			if (last == ConstIteratorProxy(mHashMultiMap.MakeIterator(keyIter, keyIter->GetCount())))
+			if (first == ConstIteratorProxy(mHashMultiMap.MakeIterator(keyIter, 0))
+				&& last == ConstIteratorProxy(mHashMultiMap.MakeIterator(keyIter, keyIter->GetCount())))
+			{
 				return IteratorProxy(mHashMultiMap.MakeIterator(mHashMultiMap.RemoveKey(keyIter)));
+			}
 		}
 		if (first == begin() && last == end())
 		{
